@@ -66,7 +66,9 @@ Example C17_no_escape_needs_ascii :
   = [ESig SigState [PStr ST_CONTACT]; ESig SigState [PStr ST_SESSNEG]; EExc EX_UNICODE].
 Proof. exact no_escape_needs_ascii. Qed.
 
-(* ---- what the D-Bus caller can get back: exactly two errors *)
+(* ---- what the D-Bus caller can get back: exactly three errors (terminate() or
+        send_bundle_data() while terminating; pop of an unknown id) -- API errors
+        returned to the caller, not escapes from an event-loop callback *)
 Theorem C17_term_twice : forall s r,
   closed s = false -> in_sess s = true -> in_term s = true ->
   step s (OTerm r) = emit (EExc EX_RUNTIME) s.
@@ -79,15 +81,24 @@ Theorem C17_pop_unknown : forall s id,
 Proof. exact pop_unknown. Qed.
 Print Assumptions C17_pop_unknown.
 
+(* send_bundle_data once the session is terminating: refused (RuntimeError to the
+   caller), nothing is queued, the state is otherwise unchanged *)
+Theorem C17_send_terminating : forall s d,
+  closed s = false -> in_term s = true ->
+  step s (OSend d) = emit (EExc EX_RUNTIME) s.
+Proof. exact send_terminating. Qed.
+Print Assumptions C17_send_terminating.
+
 (* every event a user operation adds is not an exception, except in exactly
-   these two cases (in any state whatsoever) *)
+   these three cases (in any state whatsoever) *)
 Theorem C17_user_errors : forall s o,
   non_user o = false ->
   exists evs, trace (step s o) = trace s ++ evs /\
     Forall (fun e =>
       is_exc e = false
       \/ (e = EExc EX_RUNTIME /\ exists r, o = OTerm r /\ closed s = false /\ in_sess s = true /\ in_term s = true)
-      \/ (e = EExc EX_KEY /\ exists id, o = OPop id /\ closed s = false /\ dict_get id (rx_map s) = None)) evs.
+      \/ (e = EExc EX_KEY /\ exists id, o = OPop id /\ closed s = false /\ dict_get id (rx_map s) = None)
+      \/ (e = EExc EX_RUNTIME /\ exists d, o = OSend d /\ closed s = false /\ in_term s = true)) evs.
 Proof. exact step_user_events. Qed.
 Print Assumptions C17_user_errors.
 
@@ -95,15 +106,18 @@ Print Assumptions C17_user_errors.
 Theorem C17_exc_only_user : forall c ops,
   Forall sessinit_ascii (handled (run c (OStart :: ops))) ->
   forall k, In (EExc k) (trace (run c (OStart :: ops))) ->
-    (k = EX_RUNTIME /\ exists r, In (OTerm r) ops) \/ (k = EX_KEY /\ exists id, In (OPop id) ops).
+    (k = EX_RUNTIME /\ ((exists r, In (OTerm r) ops) \/ (exists d, In (OSend d) ops)))
+    \/ (k = EX_KEY /\ exists id, In (OPop id) ops).
 Proof. exact exc_only_user. Qed.
 Print Assumptions C17_exc_only_user.
 
 Example C17_exc_only_user_nonvacuous :
-  let ops := c17_ops ++ [OPop 3; OTerm 0; OTerm 0] in
+  let ops := c17_ops ++ [OPop 3; OTerm 0; OTerm 0; OSend [1]] in
   Forall sessinit_ascii (handled (run c17_cfg (OStart :: ops)))
-  /\ filter is_exc (trace (run c17_cfg (OStart :: ops))) = [EExc EX_KEY; EExc EX_RUNTIME].
-Proof. vm_compute. split; [repeat constructor|reflexivity]. Qed.
+  /\ filter is_exc (trace (run c17_cfg (OStart :: ops)))
+     = [EExc EX_KEY; EExc EX_RUNTIME; EExc EX_RUNTIME]
+  /\ q_tx_queue (run c17_cfg (OStart :: ops)) = [].
+Proof. vm_compute. split; [repeat constructor|split; reflexivity]. Qed.
 
 (* ---- (17b) a rejected message is answered by exactly one MSG_REJECT, reason
         3 (unexpected), and nothing else is sent *)
